@@ -1,8 +1,14 @@
 import SE.Spec.TemplateRefs
 /-
 Go's rune-wise reference-name scan (`nameRune`, `nameLenU`, `rxExtractU`: the model of `extract` in
-regexp/regexp.go) against the ASCII name scan of the specification (`rxExtract`): they agree
-whenever the byte after the ASCII name run is absent or ASCII (`asciiAfterName`).
+regexp/regexp.go), which the specification `expandSpec`, `regexp.Expand` (`rxExpand`) and — since the
+repair a7bcc3e — the glob formatter (`substRefs`) all use:
+  * what a name rune looks like (`nameRune_*`, `nameRune_true`);
+  * the structure of a successful `extract` (`rxExtractU_some`: the name is non-empty, the rest is a
+    suffix of the input);
+  * the scan does not see the `%`-escaping the glob formatter applies before it scans: `%` is no name
+    rune, no `{`, no `}` and no continuation byte, so `extract` on the escaped text finds the same name
+    and the escaped rest (`nameRune_escapePct`, `nameLenU_escapePct`, `rxExtractU_escapePct`).
 -/
 namespace SE
 
@@ -45,73 +51,287 @@ theorem nameRune_unmodelled (b : UInt8) (r : Bytes) (hb : 0xCA ≤ b ∧ b ≤ 0
     omega
   simp [nameRune, h1, hb.1, hb.2, h2]
 
-/-- **`nameLenU` on an ASCII-delimited name**: if the byte after the ASCII word run of `s` is absent
-    or ASCII, the rune-wise scan stops exactly there. -/
-theorem nameLenU_ascii : ∀ (s : Bytes) (fuel : Nat), s.length < fuel →
-    (match s.dropWhile isWordByte with | [] => True | c :: _ => c < 0x80) →
-    nameLenU fuel s = some (s.takeWhile isWordByte).length := by
-  intro s
-  induction s with
-  | nil =>
-    intro fuel hf _
-    cases fuel with
-    | zero => simp at hf
-    | succ fuel => simp [nameLenU, nameRune]
-  | cons b r ih =>
-    intro fuel hf h
-    cases fuel with
-    | zero => simp at hf
-    | succ fuel =>
-      cases hw : isWordByte b with
-      | true =>
-        have hb := isWordByte_lt b hw
-        simp only [List.dropWhile_cons, hw, if_true] at h
-        have := ih fuel (by simpa using hf) h
-        simp only [nameLenU, nameRune_ascii b hb r, hw, List.drop_succ_cons, List.drop_zero, this,
-          List.takeWhile_cons, if_true, Option.map_some, List.length_cons]
-        congr 1; omega
-      | false =>
-        simp only [List.dropWhile_cons, hw, Bool.false_eq_true, if_false] at h
-        simp [nameLenU, nameRune_ascii b h r, hw]
+/-- a name rune is one or two bytes wide, lies inside the input and contains no `%` -/
+theorem nameRune_true (s : Bytes) (w : Nat) (h : nameRune s = some (w, true)) :
+    1 ≤ w ∧ w ≤ s.length ∧ cPct ∉ s.take w := by
+  cases s with
+  | nil => simp [nameRune] at h
+  | cons b rest =>
+    simp only [nameRune] at h
+    split at h
+    · simp only [Option.some.injEq, Prod.mk.injEq] at h
+      obtain ⟨rfl, hw⟩ := h
+      refine ⟨Nat.le_refl _, by simp, ?_⟩
+      simp only [List.take_succ_cons, List.take_zero, List.mem_singleton]
+      intro e; rw [← e] at hw; revert hw; decide
+    · split at h
+      · rename_i hr
+        cases rest with
+        | nil => simp at h
+        | cons c r =>
+          simp only at h
+          split at h
+          · rename_i hcr
+            simp only [Option.some.injEq, Prod.mk.injEq] at h
+            obtain ⟨rfl, _⟩ := h
+            refine ⟨by omega, by simp, ?_⟩
+            simp only [List.take_succ_cons, List.take_zero, List.mem_cons, List.not_mem_nil, or_false, not_or]
+            simp only [Bool.and_eq_true, decide_eq_true_eq] at hr hcr
+            constructor
+            · intro e; rw [← e] at hr; revert hr; decide
+            · intro e; rw [← e] at hcr; revert hcr; decide
+          · simp at h
+      · split at h <;> simp at h
 
-theorem take_length_takeWhile (p : UInt8 → Bool) (s : Bytes) : s.take (s.takeWhile p).length = s.takeWhile p := by
+/-! ### `%`-escaping -/
+
+theorem escapePct_nil : escapePct [] = [] := rfl
+
+theorem escapePct_cons (b : UInt8) (s : Bytes) :
+    escapePct (b :: s) = (if b == cPct then [cPct, cPct] else [b]) ++ escapePct s := by
+  simp [escapePct]
+
+theorem escapePct_cons_pct (s : Bytes) : escapePct (cPct :: s) = cPct :: cPct :: escapePct s := by
+  rw [escapePct_cons]; rfl
+
+theorem escapePct_cons_plain (b : UInt8) (s : Bytes) (hb : (b == cPct) = false) :
+    escapePct (b :: s) = b :: escapePct s := by
+  rw [escapePct_cons]; simp [hb]
+
+/-- the two shapes of an escaped non-empty text -/
+theorem escapePct_cons_cases (b : UInt8) (s : Bytes) :
+    (b = cPct ∧ escapePct (b :: s) = cPct :: cPct :: escapePct s) ∨
+    ((b == cPct) = false ∧ escapePct (b :: s) = b :: escapePct s) := by
+  by_cases hb : (b == cPct) = true
+  · have : b = cPct := by simpa using hb
+    subst this
+    exact .inl ⟨rfl, escapePct_cons_pct s⟩
+  · have hb' : (b == cPct) = false := by simpa using hb
+    exact .inr ⟨hb', escapePct_cons_plain b s hb'⟩
+
+theorem escapePct_append (s t : Bytes) : escapePct (s ++ t) = escapePct s ++ escapePct t := by
+  simp [escapePct]
+
+/-- a text without `%` is not changed by the escaping -/
+theorem escapePct_plain (s : Bytes) (h : cPct ∉ s) : escapePct s = s := by
   induction s with
   | nil => rfl
-  | cons b r ih =>
-    cases hp : p b with
-    | true => simp [hp, ih]
-    | false => simp [hp]
+  | cons b s ih =>
+    simp only [List.mem_cons, not_or] at h
+    have hb : (b == cPct) = false := by
+      cases hbb : (b == cPct) with
+      | false => rfl
+      | true => exfalso; apply h.1; simp at hbb; exact hbb.symm
+    rw [escapePct_cons_plain b s hb, ih h.2]
 
-/-- **Bridging lemma**: if the byte after the ASCII word run of `s` (after the optional `{`) is absent
-    or `< 0x80`, Go's `extract` is modelled and is the ASCII `rxExtract`. -/
-theorem rxExtractU_eq_rxExtract (s : Bytes) (h : asciiAfterName s = true) : rxExtractU s = some (rxExtract s) := by
-  have key : ∀ s1 : Bytes, (match s1.dropWhile isWordByte with | [] => true | c :: _ => decide (c < 0x80)) = true →
-      nameLenU (s1.length + 1) s1 = some (s1.takeWhile isWordByte).length := by
-    intro s1 h1
-    apply nameLenU_ascii s1 _ (Nat.lt_succ_self _)
-    cases e : s1.dropWhile isWordByte with
-    | nil => trivial
-    | cons c t => rw [e] at h1; simpa using h1
-  unfold asciiAfterName at h
-  unfold rxExtractU rxExtract
+/-- escaping only makes a text longer -/
+theorem length_le_escapePct (s : Bytes) : s.length ≤ (escapePct s).length := by
+  induction s with
+  | nil => exact Nat.le_refl _
+  | cons b s ih =>
+    rcases escapePct_cons_cases b s with ⟨_, h⟩ | ⟨_, h⟩ <;> rw [h] <;> simp only [List.length_cons] <;> omega
+
+/-! ### the name scan does not see the escaping -/
+
+/-- `%` is ASCII and no name byte; it is not a continuation byte either -/
+theorem nameRune_escapePct (s : Bytes) : nameRune (escapePct s) = nameRune s := by
   cases s with
-  | nil => simp [nameLenU, nameRune]
+  | nil => rfl
+  | cons b rest =>
+    rcases escapePct_cons_cases b rest with ⟨rfl, h⟩ | ⟨hb, h⟩
+    · rw [h, nameRune_ascii cPct (by decide), nameRune_ascii cPct (by decide)]
+    · rw [h]
+      cases rest with
+      | nil => rfl
+      | cons c r =>
+        rcases escapePct_cons_cases c r with ⟨rfl, h2⟩ | ⟨_, h2⟩
+        · rw [h2]
+          have : (decide ((0x80 : UInt8) ≤ cPct)) = false := by decide
+          simp [nameRune, this]
+        · rw [h2]
+          simp only [nameRune]
+
+/-- **The name scan commutes with `%`-escaping**: the rune-wise scan finds a name of the same length in
+    the escaped text (fuels: anything sufficient), and that name contains no `%`, i.e. the escaped text
+    is the name followed by the escaped rest. -/
+theorem nameLenU_escapePct : ∀ (fuel : Nat) (s : Bytes) (fuel' : Nat), s.length < fuel →
+    (escapePct s).length < fuel' →
+    nameLenU fuel' (escapePct s) = nameLenU fuel s ∧
+    ∀ n, nameLenU fuel s = some n → n ≤ s.length ∧ escapePct s = s.take n ++ escapePct (s.drop n) := by
+  intro fuel
+  induction fuel with
+  | zero => intro s fuel' hf; exact absurd hf (Nat.not_lt_zero _)
+  | succ fuel ih =>
+    intro s fuel' hf hf'
+    cases fuel' with
+    | zero => exact absurd hf' (Nat.not_lt_zero _)
+    | succ fuel' =>
+      simp only [nameLenU]
+      rw [nameRune_escapePct]
+      cases hr : nameRune s with
+      | none => exact ⟨rfl, fun n h => by cases h⟩
+      | some p =>
+        obtain ⟨w, tf⟩ := p
+        cases tf with
+        | false =>
+          refine ⟨rfl, fun n h => ?_⟩
+          simp only [Option.some.injEq] at h
+          subst h
+          simp
+        | true =>
+          obtain ⟨hw1, hw2, hpct⟩ := nameRune_true s w hr
+          have hsplit : escapePct s = s.take w ++ escapePct (s.drop w) := by
+            conv => lhs; rw [← List.take_append_drop w s]
+            rw [escapePct_append, escapePct_plain _ hpct]
+          have hlen : (s.take w).length = w := by simp [Nat.min_eq_left hw2]
+          have hdrop : (escapePct s).drop w = escapePct (s.drop w) := by
+            rw [hsplit, List.drop_left' hlen]
+          have hl1 : (s.drop w).length < fuel := by simp only [List.length_drop]; omega
+          have hl2 : (escapePct (s.drop w)).length < fuel' := by
+            have := congrArg List.length hsplit
+            simp only [List.length_append, hlen] at this
+            omega
+          obtain ⟨ih1, ih2⟩ := ih (s.drop w) fuel' hl1 hl2
+          simp only
+          refine ⟨by rw [hdrop, ih1], fun n hn => ?_⟩
+          cases hk : nameLenU fuel (s.drop w) with
+          | none => rw [hk] at hn; cases hn
+          | some k =>
+            rw [hk] at hn
+            simp only [Option.map_some, Option.some.injEq] at hn
+            subst hn
+            obtain ⟨hk1, hk2⟩ := ih2 k hk
+            simp only [List.length_drop] at hk1
+            refine ⟨by omega, ?_⟩
+            rw [hsplit, hk2, List.take_add, List.append_assoc, List.drop_drop]
+
+/-! ### the structure of `extract` -/
+
+/-- `rxExtractU` after the optional `{` has been looked at -/
+def rxCore (brace : Bool) (s1 : Bytes) : Option (Option (Bytes × Bytes)) :=
+  match nameLenU (s1.length + 1) s1 with
+  | none => none
+  | some n =>
+    let name := s1.take n
+    if name.isEmpty then some none else
+    let r := s1.drop n
+    if brace then
+      match r with
+      | b :: r' => if b == cRBrace then some (some (name, r')) else some none
+      | [] => some none
+    else some (some (name, r))
+
+theorem rxExtractU_eq_core (s : Bytes) :
+    rxExtractU s = match s with
+      | b :: r => if b == cLBrace then rxCore true r else rxCore false (b :: r)
+      | [] => rxCore false [] := by
+  cases s with
+  | nil => rfl
   | cons b r =>
     by_cases hb : (b == cLBrace) = true
-    · simp only [hb, if_true] at h ⊢
-      rw [key r h]
-      simp only [take_length_takeWhile]
-      cases (r.takeWhile isWordByte).isEmpty with
-      | true => rfl
+    · simp only [rxExtractU, rxCore, hb, if_true]
+      cases nameLenU (r.length + 1) r with
+      | none => rfl
+      | some n =>
+        simp only
+        split
+        · rfl
+        · cases List.drop n r <;> rfl
+    · have hb' : (b == cLBrace) = false := by simpa using hb
+      simp only [rxExtractU, rxCore, hb', Bool.false_eq_true, if_false]
+      cases nameLenU ((b :: r).length + 1) (b :: r) <;> rfl
+
+theorem rxCore_some (brace : Bool) (s1 name r : Bytes) (h : rxCore brace s1 = some (some (name, r))) :
+    name ≠ [] ∧ ∃ pre, s1 = pre ++ r := by
+  unfold rxCore at h
+  split at h
+  · cases h
+  · rename_i n _
+    simp only at h
+    split at h
+    · cases h
+    · rename_i hne
+      have hne' : s1.take n ≠ [] := by simpa using hne
+      split at h
+      · split at h
+        · rename_i b r' hr
+          split at h
+          · rename_i hb
+            simp only [Option.some.injEq, Prod.mk.injEq] at h
+            obtain ⟨rfl, rfl⟩ := h
+            refine ⟨hne', s1.take n ++ [b], ?_⟩
+            rw [List.append_assoc, List.singleton_append, ← hr, List.take_append_drop]
+          · cases h
+        · cases h
+      · simp only [Option.some.injEq, Prod.mk.injEq] at h
+        obtain ⟨rfl, rfl⟩ := h
+        exact ⟨hne', s1.take n, (List.take_append_drop n s1).symm⟩
+
+/-- a successful `extract`: the name is non-empty and the rest is a suffix of the input -/
+theorem rxExtractU_some (s name r : Bytes) (h : rxExtractU s = some (some (name, r))) :
+    name ≠ [] ∧ ∃ pre, s = pre ++ r := by
+  rw [rxExtractU_eq_core] at h
+  cases s with
+  | nil => exact rxCore_some _ _ _ _ h
+  | cons b t =>
+    simp only at h
+    split at h
+    · obtain ⟨h1, pre, h2⟩ := rxCore_some _ _ _ _ h
+      exact ⟨h1, b :: pre, by rw [h2]; rfl⟩
+    · exact rxCore_some _ _ _ _ h
+
+theorem rxCore_escapePct (brace : Bool) (s1 : Bytes) :
+    rxCore brace (escapePct s1) = (rxCore brace s1).map (Option.map fun p => (p.1, escapePct p.2)) := by
+  unfold rxCore
+  obtain ⟨h1, h2⟩ := nameLenU_escapePct (s1.length + 1) s1 ((escapePct s1).length + 1)
+    (Nat.lt_succ_self _) (Nat.lt_succ_self _)
+  rw [h1]
+  cases hn : nameLenU (s1.length + 1) s1 with
+  | none => rfl
+  | some n =>
+    obtain ⟨hle, hsplit⟩ := h2 n hn
+    have hlen : (s1.take n).length = n := by simp [Nat.min_eq_left hle]
+    have htake : (escapePct s1).take n = s1.take n := by rw [hsplit, List.take_left' hlen]
+    have hdrop : (escapePct s1).drop n = escapePct (s1.drop n) := by rw [hsplit, List.drop_left' hlen]
+    simp only [htake, hdrop]
+    cases hemp : (s1.take n).isEmpty with
+    | true => rfl
+    | false =>
+      simp only [Bool.false_eq_true, if_false]
+      cases brace with
+      | false => rfl
+      | true =>
+        simp only [if_true]
+        cases hr : s1.drop n with
+        | nil => rfl
+        | cons b r' =>
+          rcases escapePct_cons_cases b r' with ⟨rfl, h⟩ | ⟨hb, h⟩
+          · rw [h]
+            have : (cPct == cRBrace) = false := by decide
+            simp [this]
+          · rw [h]
+            simp only
+            cases (b == cRBrace) <;> rfl
+
+/-- **`extract` commutes with `%`-escaping**: on the escaped text it is modelled / malformed / successful
+    exactly when it is on the original, with the same name and the escaped rest. -/
+theorem rxExtractU_escapePct (s : Bytes) :
+    rxExtractU (escapePct s) = (rxExtractU s).map (Option.map fun p => (p.1, escapePct p.2)) := by
+  rw [rxExtractU_eq_core s]
+  cases s with
+  | nil => exact (rxExtractU_eq_core _).trans (rxCore_escapePct false [])
+  | cons b r =>
+    rcases escapePct_cons_cases b r with ⟨rfl, h⟩ | ⟨hb, h⟩
+    · have h0 : (cPct == cLBrace) = false := by decide
+      simp only [h0, Bool.false_eq_true, if_false]
+      rw [← rxCore_escapePct, h, rxExtractU_eq_core]
+      simp only [h0, Bool.false_eq_true, if_false]
+    · rw [h, rxExtractU_eq_core]
+      simp only
+      cases hl : (b == cLBrace) with
+      | true => simp only [if_true]; exact rxCore_escapePct true r
       | false =>
         simp only [Bool.false_eq_true, if_false]
-        split
-        · split <;> rfl
-        · rfl
-    · have hb' : (b == cLBrace) = false := by simpa using hb
-      simp only [hb', Bool.false_eq_true, if_false] at h ⊢
-      rw [key (b :: r) h]
-      simp only [take_length_takeWhile]
-      cases ((b :: r).takeWhile isWordByte).isEmpty <;> rfl
+        rw [← h]; exact rxCore_escapePct false (b :: r)
 
 end SE
